@@ -17,6 +17,9 @@ Required(d) == IF Mag(d) <= 9 THEN "equal" ELSE IF Mag(d) >= 11 THEN "unequal" E
 (* ... and for two arbitrary vectors *)
 RequiredVec(u, v) == IF \A i \in DOMAIN u : Mag(u[i] - v[i]) <= 9 THEN "equal"
                      ELSE IF \E i \in DOMAIN u : Mag(u[i] - v[i]) >= 11 THEN "unequal" ELSE "open"
+(* one box has no angle (it counts as angle 0), the other has one: the pair must be unequal when the angle is beyond EPS;
+   whether "no angle" equals "angle within EPS of 0" is left open; the verdict must not depend on the argument order *)
+RequiredMixed(u, v) == IF RequiredVec(u, v) = "unequal" THEN "unequal" ELSE "open"
 (* ---- facts ---- *)
 EqSymmetric(u, v) == Eq(u, v) = Eq(v, u)
 EqReflexive(u) == Eq(u, u)
